@@ -22,7 +22,9 @@ META = dict(
     rule="run = (agent class, limit, method, start URI, sensitive headers supplied, chain of (status, Location) answers); distinct = hash of (cfg, events); non-trivial = at least one redirect answered",
 )
 
-NAMES = ["authorization", "cookie", "proxy-authorization", "x-secret"]
+# configured sensitive names include spellings whose canonical header form is not str.title(): '_', digit+letter, special-cased DNT
+CONFIGURED = ["x-secret", "x_api_key", "x-oauth2token", "dnt"]
+NAMES = ["authorization", "cookie", "proxy-authorization"] + CONFIGURED
 CODES = [200, 301, 302, 303, 307, 308, 404]
 
 
@@ -134,7 +136,7 @@ def run_chain(cfg, chain, style=None):
 
     cls = client.RedirectAgent if cfg["agent"] == "strict" else client.BrowserLikeRedirectAgent
     spell = {"lower": lambda s: s, "upper": lambda s: s.upper(), "title": lambda s: s.title()}[style.get("case", "title")]
-    agent = cls(Inner(), redirectLimit=cfg["limit"], sensitiveHeaderNames=[spell("x-secret").encode()])
+    agent = cls(Inner(), redirectLimit=cfg["limit"], sensitiveHeaderNames=[spell(n).encode() for n in CONFIGURED])
     if not cfg["given"] and style.get("none"):
         headers = None
     else:
@@ -209,7 +211,7 @@ def random_run(rng):
     cfg = dict(agent=rng.choice(["strict", "browser"]), limit=rng.choice([0, 1, 2, 3, 4, 8, 20]),
                method=rng.choice(["GET", "GET", "HEAD", "POST", "PUT"]),
                uri=U(a[0], a[1], a[2], segs, q=rng.choice([None, "k=1"]) if segs else None, f=rng.choice([None, None, "top"])),
-               given=sorted(rng.sample(NAMES, rng.choice([0, 1, 2, 4]))))
+               given=sorted(rng.sample(NAMES, rng.choice([0, 1, 2, 4, 7]))))
     n = rng.randint(0, 8)
     chain = []
     for i in range(n):
@@ -305,7 +307,7 @@ def run(ctx):
     for agent in ("strict", "browser"):
         for method in ("GET", "HEAD", "POST"):
             for limit in ctx.pick([1, 2], [1, 3]):
-                cfg = dict(agent=agent, limit=limit, method=method, uri=start, given=["authorization", "x-secret"])
+                cfg = dict(agent=agent, limit=limit, method=method, uri=start, given=["authorization", "dnt", "x-oauth2token", "x-secret", "x_api_key"])
                 for ch in exhaustive_chains(codes, SMALL_REFS[:4] if maxlen == 3 else SMALL_REFS, maxlen):
                     traces.append(run_chain(cfg, ch))
     ctx.exhaustive = True
